@@ -273,7 +273,11 @@ def run_line_count_chunk(n, st):
 
     for nl in NEWLINES + EBCDIC_NEWLINES:
         for unit in (b'a', b''):
-            for tail in (b'', b'tail', b'\r', nl[:-1] or b'x'):
+            ctrl_z = nl[:len(nl) // 2].replace(b'\r', b'\x1a') \
+                if len(nl) > 1 else b'\x1a'
+
+            for tail in (b'', b'tail', b'\r', nl[:-1] or b'x', b'\x1a',
+                         ctrl_z or b'\x1a'):
                 data = (unit + nl) * n + tail
 
                 if not data:
@@ -445,7 +449,9 @@ def run_growing_chunk(chunk, st):
     alphabet = EBCDIC_ALPHABET if nl in EBCDIC_NEWLINES else ALPHABET
     evals = nontrivial = 0
     sample = None
-    tails = (nl + b'q', b'q' + nl, b'q', nl, nl[:1] or b'\n')
+    tails = (nl + b'q', b'q' + nl, b'q', nl, nl[:1] or b'\n',
+             nl + b'\x1a', nl + (nl[:len(nl) // 2].replace(b'\r', b'\x1a')
+                                  or b'\x1a'))
 
     for n in range(0, maxlen):
         for rest in itertools.product(alphabet, repeat=n):
